@@ -616,7 +616,17 @@ pub fn run_plan(
                 for (who, t) in [("built before the history", t0), ("built just now", &fresh)] {
                     // the other instance's observers tell one consistent story as well (every universe
                     // path probed where the property is about observers, C05; reachable entries elsewhere)
-                    let ts = if opts.observers && who.starts_with("built before") { full_snapshot(t, &uni) } else { snapshot(t) };
+                    let early = who.starts_with("built before");
+                    let ts = if opts.observers && early {
+                        full_snapshot(t, &uni)
+                    } else if early {
+                        // reachable entries plus exists/metadata of every universe path (orphans, ghosts)
+                        let mut ts = snapshot(t);
+                        probe_universe(t, &uni, &mut ts);
+                        ts
+                    } else {
+                        snapshot(t)
+                    };
                     if !ts.problems.is_empty() {
                         return Err(fail(case, &trace, step, format!("after {}: a second OverlayFS instance over the same layers ({}) is inconsistent in itself: {:?}", op.render(), who, &ts.problems[..ts.problems.len().min(4)])));
                     }
